@@ -101,6 +101,13 @@ type StrictHTTPClient struct {
 	client *http.Client
 }
 
+// WithRedirectPolicy returns a copy of the client that asks policy whether a redirect is to be followed (see http.Client.CheckRedirect).
+func (s *StrictHTTPClient) WithRedirectPolicy(policy func(req *http.Request, via []*http.Request) error) *StrictHTTPClient {
+	httpClient := *s.client
+	httpClient.CheckRedirect = policy
+	return &StrictHTTPClient{client: &httpClient}
+}
+
 func (s *StrictHTTPClient) Do(req *http.Request) (*http.Response, error) {
 	if StrictMode && req.URL.Scheme != "https" {
 		return nil, errors.New("strictmode is enabled, but request is not over HTTPS")
